@@ -6,7 +6,7 @@ import shutil
 import tempfile
 
 from engine import SPEC, gen_states, pool_map
-from readers import bgzf_blocks, load_pickle, read_text, run_cli, split_tag, write_text
+from readers import bgzf_blocks, eol_for, load_pickle, read_text, run_cli, split_tag, write_text
 
 GRAPHS = {"a": json.load(open(os.path.join(SPEC, "data", "sort_graph.json"))), "b": json.load(open(os.path.join(SPEC, "data", "sort_graph_b.json")))}
 GRAPH = GRAPHS["a"]      # node ids and lengths are the same in both taggings
@@ -72,7 +72,7 @@ def run_sort_case(job):
         write_text(gfa, gfa_text(variant))
         lines = [gaf_line(k + 1, r, pad) for k, r in enumerate(recs)]
         gaf = os.path.join(d, "in.gaf" + (".gz" if in_storage == "bgzf" else ""))
-        write_text(gaf, "\n".join(lines) + "\n", in_storage, block=block)
+        write_text(gaf, "\n".join(lines) + eol_for(cid), in_storage, block=block)
         out = os.path.join(d, "out.gaf" + (".gz" if out_bgzip else ""))
         to_stdout = mode != "C10" and not out_bgzip and not outind and pad == 0 and len(recs) % 4 == 3
         argv = ["sort", gaf, gfa] + ([] if to_stdout else ["--outgaf", out])
